@@ -1033,6 +1033,7 @@ func (g *lcGen) genesis() string {
 	}
 	mb := uint64(100000)
 	var gbal [lcN]uint64
+	huge := false
 	for id := uint64(1); id <= 6; id++ {
 		var bal uint64
 		switch g.r.Intn(10) {
@@ -1049,8 +1050,9 @@ func (g *lcGen) genesis() string {
 		default:
 			bal = uint64(5+g.r.Intn(200)) * 1000000
 		}
-		if g.r.Chance(4) {
+		if g.r.Chance(4) && !huge { // at most one: the total supply must stay below 2^63 for the ledger DB
 			bal = 1 << 62
+			huge = true
 		}
 		st, vid, sid, spid, vf, vl, vkd, ie := 0, 0, 0, 0, 0, 0, 0, "0"
 		if bal >= mb && g.r.Chance(25) {
